@@ -2,6 +2,7 @@ mod common;
 mod corpus;
 mod e1;
 mod e2;
+mod e2x;
 mod e4;
 mod subjects;
 
@@ -37,7 +38,7 @@ fn main() {
                 match id.as_str() {
                     "C08" | "C05" => e4::replay_cmd(&ctx, &id, &file),
                     "C09" | "C10" | "C16" => e1::replay_cmd(&ctx, &id, &file),
-                    "C01" | "C02" => e2::replay_cmd(&ctx, &id, &file),
+                    "C01" | "C02" | "C03" | "C04" | "C11" => e2::replay_cmd(&ctx, &id, &file),
                     _ => inconclusive("replay not implemented for this property"),
                 }
             }
@@ -49,6 +50,9 @@ fn main() {
             match id.as_str() {
                 "C01" => e2::c01(&ctx),
                 "C02" => e2::c02(&ctx),
+                "C03" => e2x::c03(&ctx),
+                "C04" => e2x::c04(&ctx),
+                "C11" => e2x::c11(&ctx),
                 "C08" => e4::c08(&ctx),
                 "C09" => e1::c09(&ctx),
                 "C10" => e1::c10(&ctx),
